@@ -36,7 +36,8 @@ ASSUMPTIONS = ["scripted draws are restricted to values the real generator metho
 def _weights(R, n):
     style = R.choice(["plain", "zeros", "ties", "huge", "tiny", "mixed", "onehot", "ints"])
     if style == "ints":
-        p = [float(R.randint(0, 4)) for _ in range(n)]
+        top = R.choice([4, 4, 30, 100])            # whole-number weights whose total may exceed the range of a narrow dtype
+        p = [float(R.randint(0, top)) for _ in range(n)]
     elif style == "onehot":
         p = [0.0] * n
         p[R.randrange(n)] = R.choice([1.0, 1e-300, 1e300, 0.3])
@@ -74,7 +75,7 @@ def generate(R, tier):
         k = int(numpy.prod(size))
         sc.update(n=n, p=p, pstyle=style, size=size)
         # whole-number weights may arrive in any numeric dtype (counts, flags)
-        sc["pdtype"] = R.choice(["float64", "int64", "int32", "uint8", "uint32", "uint64", "float32"]) if style == "ints" else "float64"
+        sc["pdtype"] = R.choice(["float64", "int64", "int32", "int16", "int8", "uint8", "uint32", "uint64", "float32"]) if style == "ints" else "float64"
         m = R.choice(["pass", "pass", "low", "high", "edge", "edge", "frac"])
         if m in ("low", "high"):
             sc["rng"]["script"].append({"method": "uniform", "mode": m})
